@@ -46,9 +46,9 @@ FRAMES = [
     dict(name="CircuitTemplate.get_node_template", props=["C14"], target=f"{CIRC}::CircuitTemplate.get_node_template", modifies=[],
          callees={"*.get_node_template": S_PURE_ALIAS}),
     # ------------------------------------------------------------------------------------------------ C14 / C13: copy makers
-    dict(name="update_edges", props=["C14", "C13", "C07"], target=f"{CIRC}::update_edges", modifies=[], result_not_aliasing=["base_edges"]),
-    dict(name="update_dict", props=["C14", "C07"], target=f"{CIRC}::update_dict", modifies=[], result_not_aliasing=["base_dict"]),
-    dict(name="CircuitTemplate.update_template[in_place=False]", props=["C14", "C07"], target=f"{CIRC}::CircuitTemplate.update_template",
+    dict(name="update_edges", props=["C14", "C13", "C07", "C15"], target=f"{CIRC}::update_edges", modifies=[], result_not_aliasing=["base_edges"]),
+    dict(name="update_dict", props=["C14", "C07", "C15"], target=f"{CIRC}::update_dict", modifies=[], result_not_aliasing=["base_dict"]),
+    dict(name="CircuitTemplate.update_template[in_place=False]", props=["C14", "C07", "C15"], target=f"{CIRC}::CircuitTemplate.update_template",
          modifies=[], const_params={"in_place": False},
          callees={"update_dict": S_SHALLOW, "update_edges": S_SHALLOW}),
     dict(name="OperatorTemplate.update_template", props=["C14", "C15"], target=f"{OPER}::OperatorTemplate.update_template",
